@@ -46,6 +46,13 @@ pub fn repr_range(r: &str) -> (i128, i128) {
 /// value of a discriminant expression of the palette
 pub fn disc_value(text: &str) -> Option<i128> {
     let t = text.trim();
+    // a negated parenthesised expression / a negated constant (unary expressions that are not literal patterns)
+    if let Some(inner) = t.strip_prefix("-(").and_then(|r| r.strip_suffix(')')) {
+        return disc_value(inner).map(|v| -v);
+    }
+    if let Some(rest) = t.strip_prefix("-K") {
+        return disc_value(&format!("K{}", rest)).map(|v| -v);
+    }
     // binary expressions of the palette: `a OP b` (operands are atoms)
     for (op, f) in [
         (" << ", (|a: i128, b: i128| a << b) as fn(i128, i128) -> i128),
@@ -199,6 +206,8 @@ pub fn programs(tier: Tier) -> ProgramSet {
                 ];
                 // values that only fit 64-bit discriminant types, written as expressions over unsuffixed literals
                 choices.extend(["1 << 31".to_string(), "0xFFFF << 16".into(), "1 << 40".into()]);
+                // unary expressions other than a negated literal
+                choices.extend(["-K10".to_string(), "-(1 << 2)".into()]);
                 if full {
                     choices.extend(["127".to_string(), "-128".into(), "255".into(), "32767".into(), "-32768".into(), "65535".into(), "KM5".into(), "K10 + 1".into(), "1 << 2".into(), "6 | 1".into(), "12 & 10".into(), "2 * 3".into(), "5 ^ 1".into()]);
                 } else {
